@@ -76,7 +76,18 @@ def configs_for(spec, tier: str, full=False):
 
 
 def build(spec) -> Problem:
-    p = Problem([tuple(d) for d in spec["doms"]], [v[0] for v in spec["vars"]], [v[1] for v in spec["vars"]])
+    api = spec.get("api")
+    if api == "add_variable":  # the same model written through Problem.add_variable (one domain slot per variable)
+        p = Problem([])
+        for j, (d, off) in enumerate(spec["vars"]):
+            p.add_variable(tuple(spec["doms"][j]), d, off)
+    elif api == "add_variables":
+        p = Problem([])
+        p.add_variables([tuple(d) for d in spec["doms"]], [v[0] for v in spec["vars"]], [v[1] for v in spec["vars"]])
+    else:
+        # singleton domains are given as plain ints at even positions and as (v, v) pairs at odd ones: both forms are API
+        doms = [int(d[0]) if (d[0] == d[1] and k % 2 == 0) else tuple(d) for k, d in enumerate(spec["doms"])]
+        p = Problem(doms, [v[0] for v in spec["vars"]], [v[1] for v in spec["vars"]])
     for typ, vs, params in spec["cons"]:
         p.add_propagator((list(vs), K.ALG[typ], list(params)))
     return p
@@ -92,9 +103,9 @@ def make_solver(problem, spec, cfg, stack=None) -> BacktrackSolver:
     if "decision" in spec:
         kw["decision_domains"] = list(spec["decision"])
     if stack is None:
-        stack = 2 * U.total_domain_size(spec) + 8  # deeper than any search on this problem (3-way splits included)
+        stack = min(250, 2 * U.total_domain_size(spec) + 8)  # deeper than any search on this problem (3-way splits included)
     return BacktrackSolver(problem, consistency_alg_idx=CONS[cons], var_heuristic_idx=VARH[varh],
-                           dom_heuristic_idx=DOMH[domh], stack_max_height=min(stack, 250), log_level="ERROR", **kw)
+                           dom_heuristic_idx=DOMH[domh], stack_max_height=min(stack, 256), log_level="ERROR", **kw)
 
 
 # ----------------------------------------------------------------------------------------------------------------
